@@ -11,6 +11,7 @@ package main
 
 import (
 	"fmt"
+	"sort"
 
 	"diagonal.works/b6"
 	"verifharness/hx"
@@ -254,6 +255,15 @@ func runOps(c *hx.Ctx, init []string, nops int, dups bool) {
 				ks = append(ks, ks[r.Intn(len(ks))])
 				c.Note("rms:repeated-key")
 			}
+			if r.Chance(1, 4) { // the key set's own size dimension (0 .. 70 keys, repeats, orders)
+				ks = keySet(c, r, t, func() string { return pickKey(r, t) })
+				present = 0
+				for _, k := range ks {
+					if has(t, k) {
+						present++
+					}
+				}
+			}
 			if present >= 2 {
 				removedMany = true
 				c.Note("rms:>=2-present")
@@ -366,6 +376,94 @@ func bigKey(r *hx.Rand, t b6.Tags, alphabet int) string {
 	return fmt.Sprintf("k%d", r.Intn(alphabet)) // possibly absent
 }
 
+// keySet draws the argument of RemoveTags along its own size dimension: 0, 1, 2–10, 15–17 or 30–70 keys
+// (by `pick`), then possibly repeats (a present key 2–3 times, an absent key twice), and orders the keys
+// as drawn, in list order, in reverse list order or shuffled.
+func keySet(c *hx.Ctx, r *hx.Rand, t b6.Tags, pick func() string) []string {
+	var m int
+	switch r.Intn(10) {
+	case 0:
+		m = r.Intn(2) // 0 or 1
+	case 1, 2, 3, 4:
+		m = 2 + r.Intn(9)
+	case 5, 6:
+		m = 15 + r.Intn(3)
+	default:
+		m = 30 + r.Intn(41)
+	}
+	switch {
+	case m <= 1:
+		c.Note("keyset:0-1")
+	case m <= 10:
+		c.Note("keyset:2-10")
+	case m <= 17:
+		c.Note("keyset:15-17")
+	default:
+		c.Note("keyset:30-70")
+	}
+	seen := map[string]bool{}
+	var ks []string
+	for j := 0; j < m; j++ {
+		k := pick()
+		if seen[k] && r.Chance(2, 3) { // mostly distinct keys; deliberate repeats are added below
+			continue
+		}
+		seen[k] = true
+		ks = append(ks, k)
+	}
+	pos := map[string]int{}
+	for i, tg := range t {
+		pos[tg.Key] = i
+	}
+	if len(ks) > 0 && r.Chance(1, 2) {
+		var present []string
+		for _, k := range ks {
+			if _, ok := pos[k]; ok {
+				present = append(present, k)
+			}
+		}
+		if len(present) > 0 {
+			k := present[r.Intn(len(present))]
+			for j := 1 + r.Intn(2); j > 0; j-- {
+				at := r.Intn(len(ks) + 1)
+				ks = append(ks[:at], append([]string{k}, ks[at:]...)...)
+			}
+			c.Note("keyset:present-key-repeated")
+		}
+	}
+	if r.Chance(1, 4) {
+		ks = append(ks, "absent", "absent")
+		c.Note("keyset:absent-key-repeated")
+	}
+	inList := func(a, b string) bool {
+		pa, oka := pos[a]
+		pb, okb := pos[b]
+		if oka != okb {
+			return oka
+		}
+		return pa < pb
+	}
+	switch r.Intn(4) {
+	case 0:
+		sort.SliceStable(ks, func(i, j int) bool { return inList(ks[i], ks[j]) })
+		c.Note("keyset:list-order")
+	case 1:
+		sort.SliceStable(ks, func(i, j int) bool { return inList(ks[j], ks[i]) })
+		c.Note("keyset:reverse-list-order")
+	case 2:
+		p := r.Perm(len(ks))
+		sh := make([]string, len(ks))
+		for i, j := range p {
+			sh[i] = ks[j]
+		}
+		ks = sh
+		c.Note("keyset:shuffled")
+	default:
+		c.Note("keyset:as-drawn")
+	}
+	return ks
+}
+
 func bigCase(c *hx.Ctx) {
 	r := c.Rand
 	alphabet := 70 + r.Intn(231)
@@ -393,11 +491,7 @@ func bigCase(c *hx.Ctx) {
 			opRm(c, &t, bigKey(r, t, alphabet))
 			c.Note("big:rm")
 		default:
-			m := 2 + r.Intn(9)
-			var ks []string
-			for j := 0; j < m; j++ {
-				ks = append(ks, bigKey(r, t, alphabet))
-			}
+			ks := keySet(c, r, t, func() string { return bigKey(r, t, alphabet) })
 			for _, k := range ks {
 				for pos, tg := range t {
 					if tg.Key == k && pos >= 64 {
@@ -430,7 +524,7 @@ func contains(xs []string, k string) bool {
 func main() {
 	hx.Main(hx.Family{
 		Name: "c39",
-		Rule: fmt.Sprintf("cases 0..%d: bounded-exhaustive (every key-distinct list of length <=4 over 5 keys x every single-key get/set/rm and RemoveTags of every key subset in two orders, with and without spare capacity); 1 in 25 of the other cases: key-distinct lists of 60-260 tags over 70-300 generated keys with get/set/rm/RemoveTags(2-10 keys) aimed at positions 0,1,62-66,127-130,last-1,last (buckets big:*); the rest: random op sequences (get/set/add/rm/rms/merge/clone + snap/swap/mergeo/chk aliasing probes) over an 8-key alphabet, 1 in 10 on a list with repeated keys (outside the property's domain, model comparison only); non-trivial = exhaustive list of length >=2, or a RemoveTags call removing >=2 present keys, or an aliasing probe re-read, or a big list with a RemoveTags target at position >= 64; distinct = by hash of the op text", nExhaustive-1),
+		Rule: fmt.Sprintf("cases 0..%d: bounded-exhaustive (every key-distinct list of length <=4 over 5 keys x every single-key get/set/rm and RemoveTags of every key subset in two orders, with and without spare capacity); 1 in 25 of the other cases: key-distinct lists of 60-260 tags over 70-300 generated keys with get/set/rm/RemoveTags aimed at positions 0,1,62-66,127-130,last-1,last (buckets big:*); RemoveTags key sets have their own size dimension: 0, 1, 2-10, 15-17 or 30-70 keys, a present key repeated 2-3 times, an absent key twice, in list / reverse / shuffled order (buckets keyset:*, also used in 1 of 4 RemoveTags calls of the small cases); the rest: random op sequences (get/set/add/rm/rms/merge/clone + snap/swap/mergeo/chk aliasing probes) over an 8-key alphabet, 1 in 10 on a list with repeated keys (outside the property's domain, model comparison only); non-trivial = exhaustive list of length >=2, or a RemoveTags call removing >=2 present keys, or an aliasing probe re-read, or a big list with a RemoveTags target at position >= 64; distinct = by hash of the op text", nExhaustive-1),
 		Quick:    nExhaustive + 3000,
 		Thorough: nExhaustive + 200000,
 		Corpus: func(c *hx.Ctx) {
